@@ -78,6 +78,10 @@ def run(ctx):
                 a, b = rng.sample(par[8], 2)
                 a[0] = b[0] = f"same-{rng.randrange(1000)}"
                 dup_ids.add(a[0])
+        if rng.random() < 0.1:
+            # an id is any string the caller chose, the empty string included
+            rng.choice([x for _, x in gen.nodes_of(t)])[0] = ""
+            dup_ids.add("")
         impl.reset()
         root = impl.build(t)
         orig = impl.snapshot(root)
@@ -113,6 +117,18 @@ def run(ctx):
                             fails.append({"case": case, "what": "a loaded node is not registered under its id"}); break
             if impl.snapshot(root) != orig:
                 fails.append({"case": case, "what": "to_json changed the tree"})
+            # "any tree": also a subtree of a larger document, serialised on its own (its root has a parent and, possibly, a tail)
+            inner = [n for n in walk(root) if n.parent is not None]
+            if closed and inner and rng.random() < 0.4:
+                sub_ = rng.choice(inner)
+                want = impl.snapshot(sub_)
+                stext = metapype_io.to_json(sub_)
+                impl.reset()
+                sback = metapype_io.from_json(stext)
+                if impl.snapshot(sback) != want:
+                    fails.append({"case": {"tree": orig, "subtree_root": sub_.name}, "what": f"from_json(to_json(subtree)) differs from the subtree (a node with a parent, serialised on its own)"})
+                elif metapype_io.to_json(sback) != stext:
+                    fails.append({"case": {"tree": orig, "subtree_root": sub_.name}, "what": "re-serialising a loaded subtree gives a different JSON text"})
             # legacy codec and converter
             ltext = mp_io.to_json(root)
             impl.reset()
